@@ -513,7 +513,12 @@ pub fn run_client_racy(cfg: &ScenCfg, out: &mut RunOut) {
                 out.probe("racy_io_errors");
             }
             Outcome::Shutdown => {
-                out.violate("C10", "racy/shutdown_while_task_alive", format!("request {} completed with Shutdown at {} although the task had not been shut down", id, t_done));
+                let d = format!("request {} completed with Shutdown at {} although the task had not been shut down", id, t_done);
+                out.violate("C10", "racy/shutdown_while_task_alive", d.clone());
+                // the task can only be gone because it panicked: what the peer sent brought it down (C04: never a panic)
+                if let Some(p) = kernel::with(|w| w.panics.first().cloned()) {
+                    out.violate("C04", "racy/client_task_panicked", format!("{}; the client task panicked: {}", d, p));
+                }
                 return;
             }
             Outcome::Rejected => {
